@@ -1,8 +1,63 @@
-import Cirbo.Model.Synth
-/-! # C06 (placeholder until the theorems are in)
--- OBLIGATION: c06_placeholder
+import Cirbo.Proofs.Synth
+import Cirbo.Proofs.GenSum
+import Cirbo.Generated.SynthTables
+/-!
+# C06 — Exact synthesis is sound and complete for the requested size and basis
+
+-- OBLIGATION: c06_sound
+-- OBLIGATION: c06_complete
+-- OBLIGATION: c06_find_circuit
+-- OBLIGATION: c06_tt_to_gate_type_correct
+-- PARTIAL: the theorems are about the Lean encoding `encode` and the decoded solution (positions, operation tables, output positions, per-row evaluation); that the code emits exactly this clause multiset and decodes a model to exactly this solution is the correspondence check (every run, incl. all constraint kinds and argument checks). Building the `Circuit` object from the decoded solution (labels "i" / "s<g>") is covered by the correspondence check and the regenerated `_tt_to_gate_type` table (proved correct below), not by a separate theorem. The time-limit path (SolverTimeOutError) and the circuit-database shortcut are outside the model (the property excludes the shortcut).
 -/
 namespace Cirbo
-theorem c06_placeholder : True := trivial
-#print axioms c06_placeholder
+open Synth
+
+/-- **soundness**: whatever satisfying assignment the solver returns, the decoded circuit has exactly
+the requested number of gates, each reading two distinct earlier positions with an operation of the
+basis, every output at a gate, agreement with every table entry that is not a don't-care, and every
+imposed `fix_gate` / `forbid_wire` / normalisation constraint -/
+theorem c06_sound (sp : Spec) (σ : SVar → Bool) (hwf : ∀ c ∈ sp.cons, WFCon sp c) (h : sat σ (encode sp)) :
+    SolOk sp (decode sp σ) := encode_sound sp σ hwf h
+
+/-- **completeness**: every such circuit is a satisfying assignment, and decoding it gives it back -/
+theorem c06_complete (sp : Spec) (sol : Sol) (hwf : ∀ c ∈ sp.cons, WFCon sp c) (hok : SolOk sp sol) :
+    sat (assignOf sp sol) (encode sp) ∧
+    (∀ g ∈ internal sp, (decode sp (assignOf sp sol)).pred g = sol.pred g) ∧
+    (∀ g p q, (decode sp (assignOf sp sol)).op g p q = sol.op g p q) ∧
+    (∀ h, h < sp.m → (decode sp (assignOf sp sol)).out h = sol.out h) := encode_complete sp sol hwf hok
+
+/-- with any sound and complete SAT solver: a circuit is returned only with all promised
+properties, and "no solution" is reported exactly when no such circuit exists -/
+theorem c06_find_circuit (solve : List Clause → Option (SVar → Bool))
+    (hsound : ∀ F σ, solve F = some σ → sat σ F) (hcomplete : ∀ F, solve F = none → ∀ σ, ¬ sat σ F)
+    (sp : Spec) (hwf : ∀ c ∈ sp.cons, WFCon sp c) :
+    (∀ sol, findCircuit solve sp = .ok sol → SolOk sp sol) ∧
+    (findCircuit solve sp = .error "NoSolutionError" ↔ ¬ ∃ sol, SolOk sp sol) :=
+  findCircuit_spec solve hsound hcomplete sp hwf
+
+/-- the regenerated `_tt_to_gate_type` table maps every operation table to a gate type computing it -/
+theorem c06_tt_to_gate_type_correct {a b c d : Bool} {ty : GateType} (h : Gen.synthTtType a b c d = some ty) (x y : Bool) :
+    bfun ty [x, y] = some (ttApply (a, b, c, d) x y) := by
+  cases a <;> cases b <;> cases c <;> cases d <;> simp only [Gen.synthTtType, Option.some.injEq] at h <;>
+    subst h <;> cases x <;> cases y <;> rfl
+
+/-! Non-vacuity: XOR of two inputs with 3 AIG-style gates — an explicit solution satisfies `SolOk`'s
+computable core on a concrete spec (evaluated) -/
+def c06Spec : Spec where
+  n := 2
+  m := 1
+  N := 1
+  table := fun _ t => some (t == 1 || t == 2)
+  allowed := fun _ _ _ _ => true
+  normalized := false
+  cons := []
+def c06Sol : Sol := { pred := fun _ => (0, 1), op := fun _ p q => xor p q, out := fun _ => 2 }
+example : (List.range 4).all (fun t => eval c06Spec c06Sol t 2 == (t == 1 || t == 2)) = true := by decide
+
+#print axioms c06_sound
+#print axioms c06_complete
+#print axioms c06_find_circuit
+#print axioms c06_tt_to_gate_type_correct
+
 end Cirbo
